@@ -172,7 +172,7 @@ def run_shard(args):
         cmd = [HARNESS_BIN, mode, "--seed", str(seed), "--millis", str(cases), "--out", prefix]
     else:
         cmd = [HARNESS_BIN, mode, "--seed", str(seed), "--cases", str(cases), "--profile", profile, "--out", prefix] + extra
-    rc, out, dt = sh(cmd, timeout=900)
+    rc, out, dt = sh(cmd, timeout=240)
     if os.path.exists(prefix + ".in"):
         with open(prefix + ".model", "w") as mf, open(prefix + ".in") as inf:
             subprocess.run([DRIVER], stdin=inf, stdout=mf, timeout=900)
@@ -209,6 +209,11 @@ def replay_lines(lines, prefix):
         with open(prefix + ".model", "w") as mf, open(prefix + ".in") as inf:
             subprocess.run([DRIVER], stdin=inf, stdout=mf, timeout=300)
         return trace.load_cases(prefix + ".in", prefix + ".impl", prefix + ".model"), 0
+    if any(l.startswith("BC ") for l in lines):
+        # Layer B histories depend on the real threads' interleaving: the recorded case is re-checked against the model only
+        with open(prefix + ".in", "w") as f:
+            f.write("\n".join(lines) + "\n")
+        return [], 0
     rc, out, dt = sh([HARNESS_BIN, "replay", "--in", prefix + ".rin", "--out", prefix], timeout=300)
     with open(prefix + ".model", "w") as mf, open(prefix + ".in") as inf:
         subprocess.run([DRIVER], stdin=inf, stdout=mf, timeout=300)
@@ -227,15 +232,23 @@ def case_fails(case, pid, signature):
 
 def shrink(case, pid, signature, workdir, budget_s=25):
     """ddmin over the events of a failing case. Returns the list of input lines of the smallest failing case found."""
-    if not case.cfg_line:
+    if not case.cfg_line or getattr(case, "layer_b", False):
+        if getattr(case, "layer_b", False):
+            # a Layer B case is kept whole, cut after the failing action
+            cut = case.first_divergence() if signature is None else None
+            if signature is not None:
+                mon = monitors.MONITORS[signature.split("/")[0]]
+                hits = [f["step"] for f in mon(case) if f["signature"] == signature]
+                cut = min(hits) if hits else None
+            return case.input_lines(cut if cut is not None and cut >= 0 else None), False
         # acknowledgement schedules and pure inputs are single self-contained lines: keep the failing ones
         if signature is None:
             bad = [s.ev for s in case.steps if s.impl != s.model][:5]
         else:
             mon = monitors.MONITORS[signature.split("/")[0]]
             hits = [f["step"] for f in mon(case) if f["signature"] == signature][:5]
-            bad = [case.steps[i].ev for i in hits]
-        return [case.header] + bad, True
+            bad = [case.steps[i].ev for i in hits if i < len(case.steps)]
+        return [case.header] + bad + [n for n in case.notes if n.startswith("# hang")], True
     t0 = time.time()
     head = [case.header, case.cfg_line]
     events = [s.ev for s in case.steps]
@@ -403,6 +416,12 @@ def main(argv):
                 key = "pure:" + (s.toks[0] if s.toks else "?")
             if s.kind == "locks":
                 key = "locks:" + " ".join(s.toks[:3])
+            if s.kind == "b":
+                pcs = s.impl.split(" | ")[1] if s.impl.count(" | ") >= 2 else ""
+                key = "B:" + (s.toks[0] if s.toks else "?")
+                for t in pcs.split():
+                    if t.startswith(("w=", "s=")):
+                        dist["B-at:" + t] = dist.get("B-at:" + t, 0) + 1
             dist[key] = dist.get(key, 0) + 1
             o = s.out.split()
             if o and o[0] in ("panic", "workerpanic", "parked", "err"):
